@@ -8,7 +8,7 @@
 //        ws:<n>                     wait until int(state()) == n
 //        wb:<n>                     wait until the consumer has received >= n bytes in total
 //        sleep:<ms>  tmo:<sec>      sleep | set the limit for the waits above (default 10 s)
-//   rand <src> <dst|-> <delay_us> <seed> <keyups> <maxsamples> <pace_us> <extra_on>
+//   rand <src> <dst|-> <delay_us> <seed> <keyups> <maxsamples> <pace_us> <extra_on> [<consumer_stall_ms>]
 //                                   a feeder thread puts random samples continuously; PTT is toggled at random
 //                                   sample counts; the order of events is NOT observable
 //   -> state=<n> threw=<0|1> fed=<n> nbytes=<n> [error=<what>] bytes=<hex>
@@ -40,10 +40,13 @@ struct Rig {
     std::string error;
     double limit_s = 10.0;
 
-    Rig(const std::string& src, const std::string& dst, int delay_us) : mod(src, dst)
+    Rig(const std::string& src, const std::string& dst, int delay_us, int stall_ms = 0) : mod(src, dst)
     {
         fut = mod.run(audio, bits);
-        consumer = std::thread([this, delay_us] {
+        consumer = std::thread([this, delay_us, stall_ms] {
+            // optional initial stall: the consumer starts draining only stall_ms after the first byte was queued
+            if (stall_ms > 0) { while (bits->empty() && !stop_consumer) std::this_thread::sleep_for(1ms);
+                                std::this_thread::sleep_for(std::chrono::milliseconds(stall_ms)); }
             while (true) {
                 uint8_t b;
                 if (bits->get(b, 20ms)) {
@@ -130,7 +133,8 @@ static void run_rand(const std::vector<std::string>& t)
     long maxsamples = std::atol(t[6].c_str());
     int pace_us = std::atoi(t[7].c_str());
     bool extra_on = t[8] != "0";
-    Rig rig(src, dst, delay_us);
+    int stall_ms = t.size() > 9 ? std::atoi(t[9].c_str()) : 0;
+    Rig rig(src, dst, delay_us, stall_ms);
     rig.limit_s = 60.0;
     std::atomic<long> fed{0};
     std::atomic<bool> stop_feeder{false};
